@@ -542,6 +542,14 @@ func runC19(run *core.Run) {
 		return
 	}
 	run.Count("grammar_productions", int64(g.NumProds()))
+	// layer 6: the generated lexer against OpenFGALexer.g4 on disk
+	spec, lerr := lexSpec()
+	if lerr != nil {
+		run.Inconclusive("layer 6 (lexer conformance) not run: OpenFGALexer.g4 cannot be read into the executable form: %v", lerr)
+		spec = nil
+	} else {
+		lexerWorkload(run, spec)
+	}
 	run.Count("grammar_rules", int64(len(g.Rules)))
 	// production-targeted sentences
 	text := tokenTexts()
@@ -579,6 +587,9 @@ func runC19(run *core.Run) {
 			sb.WriteString(ts[(j.variant+r.Intn(len(ts)))%len(ts)])
 		}
 		grammarVsParser(run, g, sb.String(), "targeted: "+g.ProdString(j.pi))
+		if spec != nil {
+			lexerConforms(run, spec, sb.String(), "targeted sentence")
+		}
 		run.Count("targeted_sentences", 1)
 		run.SampleAt(i, len(jobs)/2+1, func() any { return map[string]string{"production": g.ProdString(j.pi), "text": sb.String()} })
 	})
@@ -611,6 +622,9 @@ func runC19(run *core.Run) {
 			txt = txt[:1500]
 		}
 		grammarVsParser(run, g, txt, "G2/G4")
+		if spec != nil {
+			lexerConforms(run, spec, txt, "G2/G4")
+		}
 		run.SampleAt(i, n/2+1, func() any { return txt })
 	})
 	if k := run.Counter("g2_renderings_rejected_by_grammar"); k > 0 {
@@ -625,6 +639,15 @@ func runC19(run *core.Run) {
 func replayC19(run *core.Run, c *core.Case) {
 	if c.Kind == "artefact" {
 		artefactConformance(run)
+		return
+	}
+	if c.Kind == "lexer-text" {
+		spec, err := lexSpec()
+		if err != nil {
+			fmt.Println(err)
+			return
+		}
+		lexerConforms(run, spec, c.DSL, "replay")
 		return
 	}
 	g, err := parserGrammar()
